@@ -585,7 +585,46 @@ pub fn run_c06(w: &mut W) {
             let k = rng.below(20);
             let verdict: Result<(), Div>;
             w.rep.count("calls", 1);
-            if k < 12 {
+            if pi == np - 1 && restricted.is_some() && rng.chance(1, 3) {
+                // one buffer: a packet of the allowed version, then a template packet of a version
+                // this parser does not allow. Only the first is reported and only it may change the
+                // caches (the gate applies to every packet of a buffer, not to the buffer).
+                let s = restricted.clone().unwrap()[0];
+                let mut trial = exs[pi].clone();
+                let nrec = 1 + rng.usize(3);
+                let first = match s {
+                    5 => Pkt::Fixed(fixed_pkt(&mut rng, 5, nrec)),
+                    9 => Pkt::V9(trial.v9_packet(&mut rng, &cfg, &w.pools)),
+                    _ => Pkt::Ipfix(trial.ipfix_msg(&mut rng, &cfg, &w.pools)),
+                };
+                let mut scratch = trial.clone();
+                let second: Vec<u8> = if s == 9 || (s == 5 && rng.chance(1, 2)) {
+                    let t = scratch.ipfix_new_template(&mut rng, &cfg, &w.pools);
+                    scratch.ipfix_wrap(&mut rng, vec![IpfixSet::Template { records: vec![t], padding: vec![] }]).wire()
+                } else {
+                    let t = scratch.v9_new_template(&mut rng, &cfg, &w.pools);
+                    scratch.v9_wrap(&mut rng, &cfg, vec![V9FlowSet::Template { templates: vec![t], padding: vec![] }]).wire()
+                };
+                let fw = first.wire();
+                let mut buf = fw.clone();
+                buf.extend_from_slice(&second);
+                let res = sut.parse(pi, &buf);
+                exs[pi] = trial;
+                shape.push_str("C;");
+                w.rep.count("noop.disallowed_version_chained_behind_allowed", 1);
+                let c = canon(&res);
+                delivered[pi].push((fw, c[1..c.len() - 1].to_string()));
+                verdict = (|| {
+                    match (&first, res.as_slice()) {
+                        (Pkt::V9(a), [NetflowPacket::V9(g)]) => check_v9(a, g, &mut st)?,
+                        (Pkt::Ipfix(a), [NetflowPacket::IPFix(g)]) => check_ipfix(a, g, &mut st)?,
+                        (Pkt::Fixed(_), [NetflowPacket::V5(_)]) => {}
+                        (_, r) => return Err(div("cache/disallowed-chained", "elements", format!("allowed packet followed by a packet of a disallowed version returned {:?}", r.iter().map(kind).collect::<Vec<_>>()))),
+                    }
+                    Ok(())
+                })();
+                // the model (exs[pi]) saw only the first packet: cache_matches_model below decides
+            } else if k < 12 {
                 // a conformant packet from this parser's exporter
                 let disallowed = |p: &Pkt| pi == np - 1 && restricted.as_ref().map(|s| !s.contains(&p.version())).unwrap_or(false);
                 let mut trial = exs[pi].clone();
@@ -1004,7 +1043,17 @@ pub fn run_c07(w: &mut W) {
             shadow.v9_t.remove(&t.id);
             t.id = wid;
             shadow.v9_t.insert(wid, t.clone());
-            let d = shadow.v9_data(&mut rng, &cfg, &t);
+            let mut d = shadow.v9_data(&mut rng, &cfg, &t);
+            // every fourth orphan carries no complete record: an empty body or a few bytes shorter
+            // than one record (still data for an unknown id; once the template is known it is a
+            // data flowset with zero records whose body is padding)
+            if reason != 4 && rng.chance(1, 4) {
+                let rs = t.rec_size();
+                let n = if rs <= 1 || rng.chance(1, 2) { 0 } else { 1 + rng.usize((rs - 1).min(3)) };
+                let body = rng.bytes(n);
+                d = V9FlowSet::Data { tmpl: t.clone(), records: vec![], padding: body };
+                w.rep.count("orphans_without_a_complete_record", 1);
+            }
             tmpl_pkt = shadow.v9_wrap(&mut rng, &cfg, vec![V9FlowSet::Template { templates: vec![t.clone()], padding: vec![] }]).wire();
             data_fs_v9 = Some(d);
             data_set_ix = None;
@@ -1025,7 +1074,13 @@ pub fn run_c07(w: &mut W) {
             shadow.ix_t.remove(&t.id);
             t.id = wid;
             shadow.ix_t.insert(wid, t.clone());
-            let d = shadow.ipfix_data(&mut rng, &cfg, wid, false, &t.fields);
+            let mut d = shadow.ipfix_data(&mut rng, &cfg, wid, false, &t.fields);
+            if reason != 4 && rng.chance(1, 4) {
+                let rs: usize = t.fields.iter().map(|f| if f.len == 65535 { 1 } else { f.len as usize }).sum();
+                let n = if rs <= 1 || rng.chance(1, 2) { 0 } else { 1 + rng.usize((rs - 1).min(3)) };
+                d = IpfixSet::Data { id: wid, options: false, fields: t.fields.clone(), records: vec![], padding: rng.bytes(n) };
+                w.rep.count("orphans_without_a_complete_record", 1);
+            }
             tmpl_pkt = shadow.ipfix_wrap(&mut rng, vec![IpfixSet::Template { records: vec![t.clone()], padding: vec![] }]).wire();
             data_set_ix = Some(d);
             data_fs_v9 = None;
@@ -1221,6 +1276,16 @@ pub fn run_c07(w: &mut W) {
                     let d = data_fs_v9.clone().unwrap();
                     let exp = V9Pkt { flowsets: vec![d], count: g.header.count, sys_up_time: g.header.sys_up_time, unix_secs: g.header.unix_secs, seq: g.header.sequence_number, source_id: g.header.source_id };
                     check_v9(&exp, g, &mut st)
+                }
+                ([NetflowPacket::IPFix(g)], false) if matches!(data_set_ix.as_ref().unwrap(), IpfixSet::Data { records, .. } if records.is_empty()) => {
+                    // a set without a complete record is not a conformant data set: "decodes normally"
+                    // means no record appears; whether the empty set itself is listed is not prescribed
+                    use netflow_parser::variable_versions::ipfix::FlowSetBody as B;
+                    let recs: usize = g.flowsets.iter().filter(|f| f.header.header_id == wid).map(|f| match &f.body { B::Data(d) => d.fields.len(), B::OptionsData(d) => d.fields.len(), _ => 1 }).sum();
+                    if recs != 0 {
+                        return Err(div("withheld/resolved", "invented-records", format!("a data set without a complete record decoded into {} record(s) once its template was known", recs)));
+                    }
+                    Ok(())
                 }
                 ([NetflowPacket::IPFix(g)], false) => {
                     let d = data_set_ix.clone().unwrap();
